@@ -93,6 +93,35 @@ func TestVerifReplayC12(t *testing.T) {
 			report("once", "a fresh context did not emit the script definition")
 		}
 	}
+	// one render, one registry: a layout that is given a block (the calls generated code makes, in its order) and the
+	// page around it see the same record of what was emitted
+	{
+		cls := ComponentCSSClass{ID: "shared_1", Class: SafeCSS(".shared_1{color:green;}")}
+		block := ComponentFunc(func(ctx context.Context, w io.Writer) error {
+			ctx = InitializeContext(ctx)
+			return RenderCSSItems(ctx, w, cls)
+		})
+		layout := ComponentFunc(func(ctx context.Context, w io.Writer) error {
+			ctx = InitializeContext(ctx)
+			children := GetChildren(ctx)
+			ctx = ClearChildren(ctx)
+			return children.Render(ctx, w)
+		})
+		page := ComponentFunc(func(ctx context.Context, w io.Writer) error {
+			ctx = InitializeContext(ctx)
+			if err := layout.Render(WithChildren(ctx, block), w); err != nil {
+				return err
+			}
+			if err := RenderCSSItems(ctx, w, cls); err != nil {
+				return err
+			}
+			return RenderScriptItems(ctx, w, s1)
+		})
+		var b bytes.Buffer
+		if err := page.Render(context.Background(), &b); err != nil || strings.Count(b.String(), string(cls.Class)) != 1 {
+			report("contexts", fmt.Sprintf("a page that uses class shared_1 inside the block it hands to a layout and again after the layout renders %q (err=%v): the rule must be emitted exactly once in the render", b.String(), err))
+		}
+	}
 	// requests through one CSS middleware are separate contexts: every request gets the same page
 	{
 		reg := ComponentCSSClass{ID: "reg_1", Class: SafeCSS(".reg_1{color:red;}")}
@@ -148,7 +177,7 @@ func replayC12(r *Run, o *Obligation) *ReplayResult {
 	if strings.Contains(o.Name, "renderCSSItemsToBuilder") && strings.Contains(o.Name, "C12-1") {
 		want = "[css-forms]"
 	}
-	if strings.Contains(o.Name, "CSSMiddleware") || strings.Contains(o.Name, "getContext") || strings.Contains(o.Name, "InitializeContext") {
+	if strings.Contains(o.Name, "CSSMiddleware") || strings.Contains(o.Name, "getContext") || strings.Contains(o.Name, "InitializeContext") || strings.Contains(o.Name, "Children") {
 		want = "[contexts]"
 	}
 	for _, line := range strings.Split(out, "\n") {
